@@ -313,6 +313,8 @@ HandleGcode(fs, c) ==
       [] c.code = "G28" -> Res(HandleG28(fs, c), "unchanged", <<>>)
       [] c.code = "G90" -> Res(SetAbs(fs, TRUE), "unchanged", <<>>)
       [] c.code = "G91" -> Res(SetAbs(fs, FALSE), "unchanged", <<>>)
+      [] c.code = "M82" -> Res([fs EXCEPT !.E.abs = TRUE], "unchanged", <<>>)
+      [] c.code = "M83" -> Res([fs EXCEPT !.E.abs = FALSE], "unchanged", <<>>)
       [] c.code = "G92" -> Res(HandleG92(fs, c), "unchanged", <<>>)
       [] c.code = "M206" -> Res(HandleM206(fs, c), "unchanged", <<>>)
       [] OTHER -> ProcessExtended(fs, c)
@@ -343,6 +345,6 @@ Applicable(fs, c) ==
           \* the classification is computed for the true tool position; with an (inverted,
           \* D11) G92 shift in effect the implementation samples the arc somewhere else
           (c.cls \in {"in", "out"} /\ fs.X.abs /\ ~HasV(c, "R")
-             /\ fs.X.off = 0 /\ fs.Y.off = 0)
+             /\ fs.X.off = 0 /\ fs.Y.off = 0 /\ fs.X.hoff = 0 /\ fs.Y.hoff = 0)
 
 =============================================================================
